@@ -20,7 +20,7 @@ from vlib.core import Stage, Violation, fail
 ID = "C11"
 MANIFEST = {
     "category": "exploration",
-    "text": "Stateful generated-input search (Hypothesis RuleBasedStateMachine): histories of up to 30 (thorough 60) steps over a pool of condition and AHB expressions with known structure - parse (cache hit or miss), parse a fresh string, edit a previously returned tree in place (replace / delete / append / clear / reverse children, overwrite the rule name, at any depth), flood both caches with 1100 distinct strings so that the 1024-entry LRU evicts, evaluate under an assignment. Invariant after every step: the tree returned for a string matches the AST it was rendered from and equals the pristine deep copy of the first parse in this history; evaluation equals the reference evaluator. Caches are cleared at the start of every history.",
+    "text": "Stateful generated-input search (Hypothesis RuleBasedStateMachine): histories of up to 30 (thorough 60) steps over a pool of condition and AHB expressions with known structure - parse (cache hit or miss), parse a fresh string, send a string through the resolver (which replaces time conditions), edit a previously returned tree in place (replace / delete / append / clear / reverse children, overwrite the rule name, at any depth; overwrite the .value or .type attribute of a token), flood both caches with 1100 distinct strings so that the 1024-entry LRU evicts, evaluate under an assignment. Invariant after every step: the tree returned for a string matches the AST it was rendered from and equals the pristine deep copy of the first parse in this history; evaluation equals the reference evaluator. Caches are cleared at the start of every history.",
     "note": "Trusted: ref.match / the AHB split oracle, the reference evaluator, copy.deepcopy of lark trees, Hypothesis' stateful engine. Histories are bounded in length; the flood rule runs at most once per history.",
     "technique": "stateful / model-based property testing (rule-based state machine over parse-edit-evict histories with a cache-independent oracle)",
 }
@@ -31,7 +31,7 @@ RULE = (
     "by the executed rule sequence (trace)"
 )
 ASSUMPTIONS = ["every history starts from empty parse caches (sequences are independent of each other)"]
-EDITS = ["replace", "delete", "append", "clear", "reverse", "rename", "replace-root-child", "insert-tree"]
+EDITS = ["replace", "delete", "append", "clear", "reverse", "rename", "replace-root-child", "insert-tree", "token-value", "token-type"]
 
 
 def _parsers():
@@ -53,7 +53,7 @@ def _verify_ahb(tree, entry):
     for child, (indicator, cond) in zip(tree.children, parts):
         if not isinstance(child, Tree) or not child.children:
             fail("structure", f"AHB parser returned {tree!r} for {text!r}")
-        if not isinstance(child.children[0], Token) or str(child.children[0]) != indicator:
+        if not isinstance(child.children[0], Token) or str(child.children[0]) != indicator or child.children[0].value != indicator:
             fail("structure", f"{text!r}: indicator {child.children[0]!r} instead of {indicator!r}")
         if cond is None:
             if child.data != "requirement_indicator" or len(child.children) != 1:
@@ -94,6 +94,8 @@ class Interpreter:
             self.edit(op)
         elif kind == "flood":
             self.flood(op["base"])
+        elif kind == "resolve":
+            self.resolve(op["i"] % len(self.pool))
         elif kind == "evaluate":
             self.evaluate(op["i"] % len(self.pool), op["assignment"])
         else:
@@ -124,8 +126,8 @@ class Interpreter:
         # history oracle
         key = (entry["kind"], text)
         if key not in self.pristine:
-            self.pristine[key] = copy.deepcopy(tree)
-        elif self.pristine[key] != tree:
+            self.pristine[key] = ref.dump_tree(tree)
+        elif self.pristine[key] != ref.dump_tree(tree):
             fail("history-dependent", f"{text!r}: tree differs from the one returned the first time {history}: {tree!r}")
         self.trees.append((index, tree))
 
@@ -160,7 +162,26 @@ class Interpreter:
             tree.children[position % len(tree.children)] = Tree("condition", [Token("CONDITION_KEY", "1")])
         elif kind == "insert-tree":
             children.insert(position, Tree("junk_rule", [Token("JUNK", "x")]))
+        elif kind in ("token-value", "token-type"):
+            # lark tokens are str instances, but their .value and .type are plain assignable attributes
+            tokens = [t for t in tree.scan_values(lambda v: isinstance(v, Token))]
+            if tokens:
+                token = tokens[op["pos"] % len(tokens)]
+                if kind == "token-value":
+                    token.value = "950"
+                else:
+                    token.type = "PACKAGE_KEY" if token.type != "PACKAGE_KEY" else "CONDITION_KEY"
         self.edited.add(index)
+
+    def resolve(self, index):
+        """the string goes through the resolver (which parses it and replaces time conditions); result not judged here"""
+        from ahbicht.expressions.expression_resolver import parse_expression_including_unresolved_subexpressions
+
+        entry = self.pool[index]
+        res = sut.call(parse_expression_including_unresolved_subexpressions, entry["s"], False, True)
+        if not res.ok:
+            fail("rejected", f"resolver raised {res!r} for the well-formed {entry['s']!r}")
+        self.edited.add(index)  # from now on a re-parse of this string counts as 'after the tree was used elsewhere'
 
     def flood(self, base):
         parse_cond, parse_ahb = _parsers()
@@ -278,6 +299,10 @@ def make_machine(tier, recorder):
         def fresh(self, entry):
             self._do({"op": "add", "entry": entry})
             self._do({"op": "parse", "i": len(self.interp.pool) - 1})
+
+        @rule(index=st.integers(0, 50))
+        def resolve(self, index):
+            self._do({"op": "resolve", "i": index})
 
         @precondition(lambda self: bool(self.interp.trees))
         @rule(tree=st.integers(0, 200), path=st.lists(st.integers(0, 5), max_size=4), edit=st.sampled_from(EDITS), pos=st.integers(0, 5))
